@@ -52,6 +52,11 @@ def use_spake(kind):
 
 
 # -----------------------------------------------------------------------------
+CODE_OPS = ("allocate", "set_code", "set_code_from", "set_code_wrong_from",
+            "input", "refresh_nameplates", "choose_nameplate_from",
+            "choose_words_from", "choose_wrong_words_from")
+
+
 class LogCatcher:
     """Collects Twisted log errors for the current run."""
 
@@ -123,6 +128,7 @@ class Client:
         self.extra_gets = []      # [kind, state] for C18
         self.ever_open = False    # first websocket open seen
         self.lazy_messages = lazy_messages
+        self.saw_failure = False  # the app has been told about an error
         self._wait_from = {}
         self.versions = versions if versions is not None else {}
         sim = world.sim
@@ -146,8 +152,13 @@ class Client:
         if self.world.on_app_event:
             self.world.on_app_event(self, kind, value)
 
-    def _closed(self, result):
+    def _closed(self, result, primary=True):
         self.closed_results.append(result)
+        if not primary:
+            # a later close() call of the Deferred API got its own answer
+            self.world.sim.ev("appev", self.name, "closed_again",
+                              type(result).__name__)
+            return
         self.events.append(("closed", result))
         self.world.sim.ev("appev", self.name, "closed",
                           type(result).__name__)
@@ -168,6 +179,7 @@ class Client:
             self._next_message()
 
     def _err(self, kind, f):
+        self.saw_failure = True
         self.events.append((kind + "_err", f.type))
         self.world.sim.ev("appev", self.name, kind + "_err", f.type.__name__)
 
@@ -214,11 +226,13 @@ class Client:
             return None
 
     def do_close(self):
+        primary = not self.close_called
         self.close_called = True
         if self.api == "deferred":
             d = self.call("close", self.w.close)
             if d is not None:
-                d.addCallbacks(self._closed, lambda f: self._closed(f.value))
+                d.addCallbacks(lambda r: self._closed(r, primary),
+                               lambda f: self._closed(f.value, primary))
         else:
             self.call("close", self.w.close)
 
@@ -241,6 +255,9 @@ class MailboxWorld:
         self.server = MailboxServer(self.sim, welcome=welcome)
         self.clients = []
         self.on_app_event = None
+        self.on_server_msg = None   # callable(client, msg dict) at delivery
+        self.on_op = None           # callable(client, op, ok) after an op ran
+        self.before_op = None       # callable(client, op) just before
         self.fault_budget = 0
         self.faults_fired = []
         self.fault_kinds = ()
@@ -264,6 +281,13 @@ class MailboxWorld:
                     end.link.owner = c
         if self.reorder_heavy:
             end.link.picker = self._pick_unordered
+        if self.on_server_msg is not None:
+            end.link.tap = self._tap
+
+    def _tap(self, end, data):
+        if end.role == "c" and data[:1] == b"M" and end.link.owner is not None:
+            self.on_server_msg(end.link.owner,
+                               json.loads(data[1:].decode("utf-8")))
 
     def _pick_unordered(self, end):
         """The server 'does not retain ordering' of `message` events: deliver
@@ -307,15 +331,20 @@ class MailboxWorld:
     def _op_enabled(self, c, op):
         kind = op[0]
         if kind in ("set_code_from", "choose_nameplate_from",
-                    "choose_words_from"):
-            return self.by_name(op[1]).code is not None
+                    "choose_words_from", "set_code_wrong_from",
+                    "choose_wrong_words_from"):
+            src = self.by_name(op[1])
+            # if the originator gave up before it had a code, skip the op
+            return src.code is not None or src.is_closed
         if kind == "wait_received":
             return len(c.received) >= op[1] or c.is_closed
         if kind == "wait_event":
             return c.has(op[1]) or c.is_closed
+        if kind == "wait_event_or_steps":
+            return c.has(op[1]) or c.is_closed or \
+                self._waited(c, op[2] * 0.05)
         if kind == "wait_steps":
-            start = c._wait_from.setdefault(c.pc, self.sim.steps)
-            return self.sim.steps - start >= op[1]
+            return self._waited(c, op[1] * 0.05)
         if kind == "wait_all_delivered":
             # stands in for an application-level "we are done" handshake: both
             # directions fully delivered (or somebody already closed)
@@ -332,19 +361,46 @@ class MailboxWorld:
             return True
         return True
 
+    def _waited(self, c, delay):
+        """Time-based wait (a timer keeps the simulated clock moving)."""
+        if c.pc not in c._wait_from:
+            c._wait_from[c.pc] = self.sim.now() + delay
+            self.sim.reactor.callLater(delay, lambda: None)
+        return self.sim.now() >= c._wait_from[c.pc]
+
     def _run_op(self, c, op):
         kind = op[0]
         w = c.w
         E = werrors
+        if kind.endswith("_from") and self.by_name(op[1]).code is None:
+            self.sim.ev("op_skipped", c.name, kind)
+            return "skipped"
+        if kind in CODE_OPS and (c.saw_failure or c.is_closed) and \
+                not self.opts.get("ambiguous_calls"):
+            # an application that was already told the wormhole failed does
+            # not go on entering a code
+            self.sim.ev("op_skipped", c.name, kind)
+            return "skipped"
         if kind == "allocate":
             c.call("allocate", w.allocate_code, op[1],
                    expect=(E.OnlyOneCodeError,))
         elif kind == "set_code":
+            c.last_code = op[1]
             c.call("set_code", w.set_code, op[1],
                    expect=(E.OnlyOneCodeError, E.KeyFormatError))
         elif kind == "set_code_from":
-            c.call("set_code", w.set_code, self.by_name(op[1]).code,
+            c.last_code = self.by_name(op[1]).code
+            c.call("set_code", w.set_code, c.last_code,
                    expect=(E.OnlyOneCodeError,))
+        elif kind == "set_code_wrong_from":
+            c.last_code = self.by_name(op[1]).code + "x"
+            c.call("set_code", w.set_code, c.last_code,
+                   expect=(E.OnlyOneCodeError,))
+        elif kind == "choose_wrong_words_from":
+            words = self.by_name(op[1]).code.split("-", 1)[1] + "x"
+            c.call("choose_words", c.helper.choose_words, words,
+                   expect=(E.AlreadyChoseWordsError,
+                           E.MustChooseNameplateFirstError))
         elif kind == "input":
             c.helper = c.call("input_code", w.input_code,
                               expect=(E.OnlyOneCodeError,))
@@ -353,6 +409,7 @@ class MailboxWorld:
                    expect=(E.AlreadyChoseNameplateError,))
         elif kind == "choose_nameplate_from":
             np = self.by_name(op[1]).code.split("-", 1)[0]
+            c.last_nameplate = np
             c.call("choose_nameplate", c.helper.choose_nameplate, np,
                    expect=(E.AlreadyChoseNameplateError,))
         elif kind == "choose_words_from":
@@ -409,7 +466,14 @@ class MailboxWorld:
 
     def _step_op(self, c, op):
         c.pc += 1
-        self._run_op(c, op)
+        n_exp, n_err = len(c.expected_errors), len(c.api_errors)
+        if self.before_op is not None:
+            self.before_op(c, op)
+        skipped = self._run_op(c, op) == "skipped"
+        if self.on_op is not None:
+            self.on_op(c, op, not skipped and
+                       n_exp == len(c.expected_errors) and
+                       n_err == len(c.api_errors))
 
     def scripts_done(self):
         return all(c.pc >= len(c.script) for c in self.clients)
